@@ -335,6 +335,20 @@ pub fn roundtrip(seed: u64, n: usize, out: &str) {
             pyjson!("Dual", rand_dual(&mut r), p_dual, dpy::dual_to_json, |t| if let Tagged::Dual(x) = t { Some(x) } else { None });
             pyjson!("Dual2", rand_dual2(&mut r), p_dual2, dpy::dual2_to_json, |t| if let Tagged::Dual2(x) = t { Some(x) } else { None });
             pyjson!("FXRates", rand_fx(&mut r), p_fx, rpy::to_json, |t| if let Tagged::FXRates(x) = t { Some(x) } else { None });
+            {
+                // the three spline classes (with and without coefficients)
+                use rateslib::verif::spline_py as spy;
+                let k = 1 + r.below(3) as usize;
+                let mut t = vec![0.0; k]; t.extend([rand_pos(&mut r), 3.0 + rand_pos(&mut r)].iter().map(|x| x.abs().min(1e6))); t.sort_by(|a, b| a.partial_cmp(b).unwrap()); let last = t[t.len() - 1]; t.extend(vec![last + 1.0; k]);
+                let n = t.len() - k;
+                let some = r.coin();
+                pyjson!("PPSplineF64", verif::ppspline_f64_wrap(PPSpline::new(k, t.clone(), if some { Some((0..n).map(|_| rand_bits(&mut r)).collect()) } else { None })),
+                        |s: &PPSplineF64| p_spline(verif::ppspline_f64_inner(s), |x| fj(*x)), |s: &PPSplineF64| spy::f64_misc(s).map(|x| x.1), |t| if let Tagged::PPSplineF64(x) = t { Some(x) } else { None });
+                pyjson!("PPSplineDual", verif::ppspline_dual_wrap(PPSpline::new(k, t.clone(), if some { Some((0..n).map(|_| rand_dual(&mut r)).collect()) } else { None })),
+                        |s: &PPSplineDual| p_spline(verif::ppspline_dual_inner(s), p_dual), |s: &PPSplineDual| spy::dual_misc(s).map(|x| x.1), |t| if let Tagged::PPSplineDual(x) = t { Some(x) } else { None });
+                pyjson!("PPSplineDual2", verif::ppspline_dual2_wrap(PPSpline::new(k, t.clone(), if some { Some((0..n).map(|_| rand_dual2(&mut r)).collect()) } else { None })),
+                        |s: &PPSplineDual2| p_spline(verif::ppspline_dual2_inner(s), p_dual2), |s: &PPSplineDual2| spy::dual2_misc(s).map(|x| x.1), |t| if let Tagged::PPSplineDual2(x) = t { Some(x) } else { None });
+            }
             if i % 3 == 0 {
                 pyjson!("Cal", rand_cal(&mut r), p_cal, cpy::cal_json, |t| if let Tagged::Cal(x) = t { Some(x) } else { None });
                 pyjson!("UnionCal", UnionCal::new(vec![rand_cal(&mut r)], Some(vec![rand_cal(&mut r)])), p_union, cpy::union_json, |t| if let Tagged::UnionCal(x) = t { Some(x) } else { None });
